@@ -11,7 +11,10 @@ import FluteModel.Lemmas.ObjRecvWritten
       as it left `Receiving`);
     * the drop point: `ops` is any list, `drop` (= `impl Drop for ObjectReceiver`) is applied after it, so every prefix of every
       history is covered.
-  `run .. = .ok st'` : the history executed without Rust panic / hang (excluded separately by `Props.C04.Obj`).
+  `run .. = .ok st'` : the theorems speak about histories the model executes to the end.  That the model never leaves `.ok`
+  (no Rust panic, no hang) is NOT proved (`push_total` does not exist; Props/C04Obj.lean has building blocks only); it is what
+  the correspondence compares on every run (`PANIC` / `TIMEOUT` observations).  Since every prefix of a history is a history,
+  a violation that precedes a panic inside a LATER op is covered; one inside the panicking op itself is not.
 -/
 namespace Flute.Props.C09
 open Flute Flute.FecDec Flute.ObjRecv Flute.Spec Flute.Spec.WriterProto
@@ -95,13 +98,17 @@ theorem terminal_by_drop (P : Params) (toi maxSize : Nat) (ops : List Op) (st' :
       that returned Ok) are exactly `transfer_length` many (= the announced content length for cenc null);
     * a Content-MD5 `m` is announced, the writer answered `enable_md5_check() = true` and the object is not empty:
       the digest of the written bytes equals `m` (any cenc: the digest is taken over what was written).
-    `s.tl`, `s.cenc`, `s.md5` are the values the writer was given in `new_object_writer(meta)`.
-    (A zero-length object is completed without MD5 comparison: `push_to_block2` calls `complete()` directly.) -/
+    * a Content-Length `n` is announced and the transfer is not empty: exactly `n` bytes were written - ANY content encoding
+      (repaired e19fa2b: before, a Content-Length that disagreed with the decoded content still ended in `complete`).
+    `s.tl`, `s.cenc`, `s.md5`, `s.cl` are the values the writer was given in `new_object_writer(meta)`.
+    What is NOT guaranteed: for cenc ≠ null without Content-Length and without MD5 nothing ties the decoded bytes to an
+    announced size; a zero-length transfer is completed without MD5 / Content-Length comparison (finding D33). -/
 theorem complete_only_when_all_written (P : Params) (toi maxSize : Nat) (ops : List Op) (st' : St)
     (h : run P (St.new toi maxSize) ops = .ok st') (hc : ¬ noComplete (drop st').out) :
     ((drop st').cenc = some .null → ∃ T, (drop st').tl = some T ∧ (drop st').written.length = T) ∧
     (∀ m, (drop st').md5 = some m → (drop st').md5Check = true → (drop st').tl ≠ some 0 →
-        P.md5 (drop st').written = m) := by
+        P.md5 (drop st').written = m) ∧
+    (∀ n, (drop st').cl = some n → (drop st').tl ≠ some 0 → (drop st').written.length = n) := by
   have hi := inv_run P _ ops (inv_new toi maxSize) h
   have hj := jinv_drop st' hi (jinv_run P _ ops (inv_new toi maxSize) (jinv_new P toi maxSize) h)
   have hid := (inv_drop st' hi).1
@@ -112,7 +119,7 @@ theorem complete_only_when_all_written (P : Params) (toi maxSize : Nat) (ops : L
     | idle => exact absurd hw hid.noIdle
     | opened => exact absurd (hj.opened hw).nc hc
     | error => exact absurd (hj.error hw) hc
-    | closed => exact ⟨(hj.closed hw).len, (hj.closed hw).md5⟩
+    | closed => exact ⟨(hj.closed hw).len, (hj.closed hw).md5, (hj.closed hw).cl⟩
 
 /-! ### non-vacuity: concrete histories that execute (`run = .ok`) and exercise the three shapes of the language -/
 
